@@ -105,10 +105,12 @@ def run_stream(ctx, n_cases):
     return stats
 
 
-def run_batch_stream(ctx, n_cases):
+def run_batch_stream(ctx, n_cases, with_in_out=False):
     """the whole BHJM_magnet_trimesh in IEEE double (Model/TrimeshSum.lean): batches with equal and with different face counts,
     fields B/H/J/M, generic observers (distinct, off the surfaces), near and far bodies in one call; rel. 1e-7 of the
-    polarization scale (triangle sheets cancel near edge extensions)"""
+    polarization scale (triangle sheets cancel near edge extensions).  `with_in_out` (C02): every batch is evaluated through
+    `getBH_level1(field_func=BHJM_magnet_trimesh, in_out=io, …)` (sources at the origin, unit orientation) with io in 'auto' /
+    'inside' / 'outside' / a misspelt value, against `Kern.trimeshL1` (Model/InOut.lean)"""
     from magpylib import mu_0
     from magpylib._src.fields.field_BH_triangularmesh import BHJM_magnet_trimesh, mask_inside_trimesh
 
@@ -117,6 +119,8 @@ def run_batch_stream(ctx, n_cases):
     rng = ctx.rng
     lines, expect = [], []
     stats = {"batches": n_cases, "rows": 0, "ragged": 0, "disagreements": 0, "fields": {}}
+    if with_in_out:
+        stats["in_out"] = {}
     for _ in range(n_cases):
         nps = np.random.default_rng(rng.randrange(2**31))
         pool, ids, _, _, pattern = gen_case(rng)
@@ -140,10 +144,20 @@ def run_batch_stream(ctx, n_cases):
             for k, i in enumerate(ids):
                 mesh[k] = pool[i].copy()
             stats["ragged"] += 1
-        real = np.asarray(BHJM_magnet_trimesh(f, obs.copy(), mesh, pol.copy()), dtype=float)
+        io = rng.choice(["auto", "inside", "outside", "bogus", "inside", "outside"]) if with_in_out else None
+        if io:
+            from magpylib._src.fields.field_wrap_BH import getBH_level1
+            from scipy.spatial.transform import Rotation
+
+            stats["in_out"][io] = stats["in_out"].get(io, 0) + 1
+            real = np.asarray(getBH_level1(field_func=BHJM_magnet_trimesh, field=f, position=np.zeros((n, 3)), orientation=Rotation.identity(n),
+                                           observers=obs.copy(), in_out=io, mesh=mesh, polarization=pol.copy()), dtype=float)
+        else:
+            real = np.asarray(BHJM_magnet_trimesh(f, obs.copy(), mesh, pol.copy()), dtype=float)
         table = [[int(bool(mask_inside_trimesh(obs[i][None].copy(), pool[j].copy())[0])) for i in range(n)] for j in range(K)]
         rows = " ".join(f"{ids[k]} {len(pool[ids[k]])} {enc(pool[ids[k]])} {enc(obs[k])} {enc(pol[k])}" for k in range(n))
-        lines.append(f"trimesh batch {f} {n} {K} {rows} " + " ".join(str(b) for row in table for b in row))
+        head = f"trimesh batchio {'other' if io == 'bogus' else io}" if io else "trimesh batch"
+        lines.append(f"{head} {f} {n} {K} {rows} " + " ".join(str(b) for row in table for b in row))
         expect.append((real, f, pattern, ids))
         stats["rows"] += n
         stats["fields"][f] = stats["fields"].get(f, 0) + 1
